@@ -1453,9 +1453,13 @@ fn pick_cropped_region<'a>(
     regions: &'a [CroppedRegion],
     location: &Location,
 ) -> Option<&'a CroppedRegion> {
+    // A region whose text ends with a line break also "covers" the (empty) line after it, so
+    // that end-of-input locations can be rendered. Prefer a region that holds the line itself.
+    let line = location.line as usize;
     regions
         .iter()
-        .find(|r| r.covers(location))
+        .find(|r| r.covers(location) && line < r.end_line)
+        .or_else(|| regions.iter().find(|r| r.covers(location)))
         .or_else(|| regions.first())
 }
 
